@@ -175,6 +175,28 @@ def cmdDownload (args : List String) : String :=
   let r := Download.download outs
   s!"{bit r.error} {r.contacted} {r.file}"
 
+/-- `dh <init> <op>…` : history of `download`/`load` calls on one object.  `<init>` = `none` | `f:<n>,<n>…`
+(content of the target file beforehand); ops `d:<mirror>,<mirror>…` | `l:1` | `l:0` -/
+def cmdDatasetHist (args : List String) : String :=
+  let nums (w : String) : List Nat := (w.splitOn ",").filterMap String.toNat?
+  let outcome (w : String) : Download.Outcome :=
+    match w with
+    | "c" => .connErr | "h" => .headNotOk | "g" => .getStatus | "t" => .timeout
+    | w => .ok (match (w.drop 3).toString.toNat? with | some n => [n] | none => [])
+  match args with
+  | [] => "bad-op"
+  | i :: ops =>
+    let file : Option (List Nat) := if i == "none" then none else some (nums (i.drop 2).toString)
+    let dops := ops.map (fun w =>
+      if w.startsWith "d:" then Download.DOp.download (((w.drop 2).toString.splitOn ",").map outcome)
+      else Download.DOp.load (w == "l:1"))
+    let (s, outs) := Download.drun ⟨true, file⟩ dops
+    let showOut : Download.DOut → String
+      | .done => "ok" | .downloadError => "DownloadError" | .typeError => "TypeError"
+      | .fileNotFound => "FileNotFoundError" | .readFileError => "ReadFileError" | .data b => s!"data{b}"
+    let fileStr := match s.file with | none => "none" | some b => s!"{b}"
+    s!"{" ".intercalate (outs.map showOut)} | {bit s.path} {fileStr}"
+
 def cmdSea (args : List String) : String :=
   match args with
   | ["label", block, noise, x0, x1, r, coin] =>
@@ -265,6 +287,9 @@ def cmdAux (a : Aux) (args : List String) : Aux × String :=
   | "sf" :: dim :: rest =>
     ({ a with smmd := MMD.Stream.fit (MMD.rbf a.sigma) a.smmd (rowsOf dim.toNat! (parseFloats rest)) }, "ok")
   | "su" :: rest =>
+    match a.smmd.updateErr with
+    | some e => (a, errStr (some e))
+    | none =>
     let (r, s) := MMD.Stream.update (MMD.rbf a.sigma) a.smmd (parseFloats rest)
     ({ a with smmd := s }, match r with | none => "-" | some v => "x" ++ hexOfFloat v)
   | ["sr"] => ({ a with smmd := a.smmd.reset }, "ok")
@@ -272,10 +297,17 @@ def cmdAux (a : Aux) (args : List String) : Aux × String :=
   | ["kn", w] => ({ a with iks := IncKS.init w.toNat! }, "ok")
   | "kf" :: rest => ({ a with iks := IncKS.fit a.iks (parseFloats rest) }, "ok")
   | ["ku", v] =>
+    match IncKS.updateErr a.iks with
+    | some e => (a, errStr (some e))
+    | none =>
     let (r, s) := IncKS.update a.iks (fl v)
     ({ a with iks := s }, match r with
       | none => "-"
-      | some r => s!"x{hexOfFloat r.statistic} {r.h} x{hexOfFloat (if r.h == 0 then 1.0 else KS.ratioToFloat r.p.1 r.p.2)}")
+      | some r =>
+        let p := match r.p with
+          | none => "asym"
+          | some p => "x" ++ hexOfFloat (if r.h == 0 then 1.0 else KS.ratioToFloat p.1 p.2)
+        s!"x{hexOfFloat r.statistic} {r.h} {p}")
   | ["kr"] => ({ a with iks := IncKS.reset a.iks }, s!"{a.iks.n}")
   -- history callback: `hn` | `ha n1,n2,…` | `hu <tag>` | `hr`  → `name:len` per tracked list
   | "hn" :: _ => let h : History.State Nat := History.init; ({ a with hist := h }, showH h)
